@@ -3,6 +3,8 @@ import GeosModel.Proofs.WKB.Seq
 namespace GeosModel.WKB
 open GeosModel
 
+variable {arc : ArcOracle}
+
 /-! ### fuel measure -/
 mutual
   def dep : G → Nat
@@ -115,15 +117,15 @@ theorem writeGs_points_length_ge (c : Cfg) (gs : List G) (h : gs.all isPoint = t
 
 theorem readGeom_line (c : Cfg) (fuel : Nat) (o' : Order) (z m : Bool) (e : Int) (he : sridFits e = true)
     (s : CSeq) (hs : s.pts.length < 4294967296) (hok : lineOK s = true) (r : List UInt8) :
-    readGeom (fuel + 1) o' (header c z m 2 e ++ seqBytes c.order z m s ++ r)
+    readGeom arc (fuel + 1) o' (header c z m 2 e ++ seqBytes c.order z m s ++ r)
       = .ok ((.lineString (maskS z m s), if c.flavor = .ext then e else 0), c.order, r) := by
   simp only [readGeom, List.append_assoc,
     readHeader_header c o' z m 2 e .lineString rfl (by omega) he, readBody,
     readSizedSeq_seqBytes c.order z m s hs, lineOK_maskS, hok, if_true]
 
 theorem readGeom_circ (c : Cfg) (fuel : Nat) (o' : Order) (z m : Bool) (e : Int) (he : sridFits e = true)
-    (s : CSeq) (hs : s.pts.length < 4294967296) (hok : circOK s = true) (r : List UInt8) :
-    readGeom (fuel + 1) o' (header c z m 8 e ++ seqBytes c.order z m s ++ r)
+    (s : CSeq) (hs : s.pts.length < 4294967296) (hok : circOK arc s = true) (r : List UInt8) :
+    readGeom arc (fuel + 1) o' (header c z m 8 e ++ seqBytes c.order z m s ++ r)
       = .ok ((.circularString (maskS z m s), if c.flavor = .ext then e else 0), c.order, r) := by
   simp only [readGeom, List.append_assoc,
     readHeader_header c o' z m 8 e .circularString rfl (by omega) he, readBody,
@@ -133,8 +135,8 @@ theorem sridFits_zero : sridFits 0 = true := by decide
 
 /-- a section of a compound curve, written with its parent's ordinate set, read as a child -/
 theorem readGeom_writeSection (c : Cfg) (fuel : Nat) (o' : Order) (z m : Bool) (g : G)
-    (hk : isSimpleCurve g = true) (hwf : WFG g = true) (hf : Fits g = true) (r : List UInt8) :
-    readGeom (fuel + 1) o' (writeSection c z m g ++ r) = .ok ((canonSec z m g, 0), c.order, r) := by
+    (hk : isSimpleCurve g = true) (hwf : WFG arc g = true) (hf : Fits g = true) (r : List UInt8) :
+    readGeom arc (fuel + 1) o' (writeSection c z m g ++ r) = .ok ((canonSec z m g, 0), c.order, r) := by
   cases g with
   | lineString s =>
     simp only [WFG] at hwf; simp only [Fits, decide_eq_true_eq] at hf
@@ -154,8 +156,8 @@ theorem isSimpleCurve_canonSec (z m : Bool) (g : G) : isSimpleCurve (canonSec z 
   cases g <;> rfl
 
 theorem readN_writeSections (c : Cfg) (fuel : Nat) (z m : Bool) (gs : List G)
-    (hk : gs.all isSimpleCurve = true) (hwf : WFGs gs = true) (hf : FitsL gs = true) (r : List UInt8) :
-    readN (fun o bs => asChild isSimpleCurve (readGeom (fuel + 1) o bs)) gs.length c.order
+    (hk : gs.all isSimpleCurve = true) (hwf : WFGs arc gs = true) (hf : FitsL gs = true) (r : List UInt8) :
+    readN (fun o bs => asChild isSimpleCurve (readGeom arc (fuel + 1) o bs)) gs.length c.order
         (writeSections c z m gs ++ r) = .ok (gs.map (canonSec z m), c.order, r) := by
   induction gs with
   | nil => simp [readN, writeSections]
@@ -275,9 +277,9 @@ theorem isNaNBits_nan : isNaNBits nanBits = true := by decide
 theorem readColl_spec (c : Cfg) (fuel : Nat) (p : G → Bool) (unit : Nat) (mk : List G → G) (h : Hdr)
     (ho : h.order = c.order) (gs : List G) (r : List UInt8) (hn : gs.length < 4294967296)
     (hlen : gs.length * unit ≤ (writeGs c gs).length)
-    (hN : readN (fun o bs => asChild p (readGeom fuel o bs)) gs.length c.order (writeGs c gs ++ r)
+    (hN : readN (fun o bs => asChild p (readGeom arc fuel o bs)) gs.length c.order (writeGs c gs ++ r)
             = .ok (canonGs c.dims gs, c.order, r)) :
-    readColl (readGeom fuel) p unit mk h (putU32 c.order gs.length ++ (writeGs c gs ++ r))
+    readColl (readGeom arc fuel) p unit mk h (putU32 c.order gs.length ++ (writeGs c gs ++ r))
       = .ok ((mk (canonGs c.dims gs), h.srid), c.order, r) := by
   have hm : gs.length % 4294967296 = gs.length := by omega
   have hg : ¬ ((writeGs c gs ++ r).length < gs.length * unit) := by
